@@ -125,21 +125,22 @@ def gen_queries(rng, tpl, files, nq):
         elif kind == "open-end":
             s, e = rng.choice(pts), None
         elif kind == "before":
-            e = lo - rng.choice([dt.timedelta(0), G.US, dt.timedelta(days=3)]) if lo.year > 3 else lo
-            s = e - dt.timedelta(days=rng.choice([1, 40, 400])) if e.year > 4 else None
+            e = sadd(lo, -rng.choice([dt.timedelta(0), G.US, dt.timedelta(days=3)])) if lo.year > 3 else lo
+            e = e or lo
+            s = sadd(e, -dt.timedelta(days=rng.choice([1, 40, 400]))) if e.year > 4 else None
         elif kind == "after":
-            s = hi + rng.choice([G.US, dt.timedelta(days=3), dt.timedelta(days=500)]) if hi.year < 9990 else hi
-            e = s + dt.timedelta(days=rng.choice([1, 40])) if rng.random() < 0.7 else None
+            s = sadd(hi, rng.choice([G.US, dt.timedelta(days=3), dt.timedelta(days=500)])) or hi
+            e = sadd(s, dt.timedelta(days=rng.choice([1, 40]))) if rng.random() < 0.7 else None
         elif kind == "empty":
             s = rng.choice(pts) if pts else lo
             e = s
         elif kind == "inverted":
             s = rng.choice(pts) if pts else lo
-            e = s - rng.choice([G.US, dt.timedelta(hours=3)])
+            e = sadd(s, -rng.choice([G.US, dt.timedelta(hours=3)])) or s
         else:
-            s, e = lo - dt.timedelta(hours=1) if lo.year > 3 else lo, hi + dt.timedelta(hours=1)
-        if tpl.is_temporal() is False and kind not in ("all", "empty", "inverted"):
-            pass
+            s, e = sadd(lo, -dt.timedelta(hours=1)) if lo.year > 3 else lo, sadd(hi, dt.timedelta(hours=1))
+        if s is not None and s != G.MIN and s.year < 2:
+            s = None
         bundle = rng.choice([None, None, None, 1, 2, 3, 7, "1h", "6h", "1D"])
         sort = rng.random() < 0.7
         if isinstance(bundle, str):
@@ -207,6 +208,9 @@ def real_find(fs, ids, q, paths_of):
         res = list(fs.find(q["start"], q["end"], sort=q["sort"], bundle=q["bundle"], filters=q["filters"],
                            no_files_error=q["nferr"], only_path=q["only_path"]))
     except Exception as e:  # noqa
+        if os.environ.get("VERIF_DEBUG") and G.err_class(e).startswith("other"):
+            import traceback
+            traceback.print_exc()
         return "err", G.err_class(e)
     conv = lambda x: ids[os.fspath(x)]
     if q["bundle"] is None:
@@ -228,6 +232,9 @@ def check_oracle(ck, tpl, files, q, kind, val, case, black_ok):
     want = G.select(files, s, e, set(q["xnames"]), q["xtimes"], q["filters"])
     if kind == "err":
         if val == "noFiles" and q["nferr"] and not want:
+            return
+        if val == "other:TypeError" and isinstance(q["bundle"], str) and not want:
+            ck.violation("freq-bundle-empty", f"find(bundle='{q['bundle']}', no_files_error=False) raised TypeError on a period without files", case)
             return
         ck.violation(label(""), f"find raised {val}; expected {len(want)} files {[f.id for f in want][:8]}", case)
         return
@@ -319,7 +326,8 @@ def run_population(ck, rng, scratch, tpl, files, time_cov, queries, extra, use_m
             if bad:
                 raise vlib.InfraError(f"driver rejected a file line: {bad[0]} ({tpl.text()})")
             if wp_model != honour:
-                ck.disagree(f"WellPlaced: model says {wp_model}, harness says {honour}", base_case)
+                k_ = next((i for i, o in enumerate(out[2:nhead]) if o != "ok wp=1"), 0)
+                ck.disagree(f"WellPlaced: model says {wp_model}, harness says {honour} on '{tpl.text()}' line '{lines[0]}' / '{lines[2 + k_] if len(lines) > 2 else ''}'", base_case)
         for k, q in enumerate(queries):
             case = dict(base_case, query=query_json(q))
             kind, val = real_find(fs, ids, q, paths_of)
@@ -351,23 +359,28 @@ def run_population(ck, rng, scratch, tpl, files, time_cov, queries, extra, use_m
                     same = sorted(m.split()) == sorted(code.split())     # glob order of the archive is not modelled
                 else:
                     same = m == code
-                if not same:
+                if not same and code == "err other:TypeError" and isinstance(q["bundle"], str) and m == "ok":
+                    ck.count("freq-bundle-empty (code raises TypeError, model yields no bundle)")
+                elif not same:
                     ck.disagree(f"find: model '{m[:120]}' vs code '{code[:120]}' on '{tpl.text()}'", case)
         # membership and length (no filters; current exclusion = none)
         fs.exclude_files([])
         fs.exclude_times(None)
         for j, x in enumerate(extra):
             case = dict(base_case, extra={k_: (G.iso(v) if isinstance(v, dt.datetime) else v) for k_, v in x.items()})
+            if x["op"] == "contains":
+                want = any(f.t0 <= x["t"] <= f.t1 for f in files)
+            elif x["op"] == "containsp":
+                want = any(f.t0 < x["b"] and f.t1 >= x["a"] for f in files) if x["b"] > x["a"] else "valueError"
+            else:
+                want = len(files)
             try:
                 if x["op"] == "contains":
                     got = "ok " + str(int(x["t"] in fs))
-                    want = any(f.t0 <= x["t"] <= f.t1 for f in files)
                 elif x["op"] == "containsp":
                     got = "ok " + str(int((x["a"], x["b"]) in fs))
-                    want = any(f.t0 < x["b"] and f.t1 >= x["a"] for f in files) if x["b"] > x["a"] else "valueError"
                 else:
                     got = "ok " + str(len(fs))
-                    want = len(files)
             except Exception as e:  # noqa
                 got = "err " + G.err_class(e)
             ck.case(kind=f"{tag}/{x['op']}")
@@ -419,7 +432,9 @@ def single_cases(ck, rng, scratch, use_model=True):
                 got = "err " + G.err_class(ex)
             case = {"op": "single", "exists": exists, "cov": [G.iso(c0), G.iso(c1)] if cov else None, "start": G.iso(s), "end": G.iso(e), "nferr": nf}
             ck.case(kind="single/" + got.replace(" ", "-"))
-            if s is not None and e is not None and e <= s:
+            if e is not None and e == G.MIN:
+                want = "err overflow"
+            elif (G.MAX if e is None else e) <= (G.MIN if s is None else s):
                 want = "err valueError"
             elif e is not None and e == G.MIN:
                 want = "err overflow"
@@ -489,6 +504,24 @@ def explore(ck, n, scratch, use_model=True, zip_share=0.0):
             single_cases(ck, rng, scratch, use_model)
 
 
+def debug_dump(ck):
+    if not os.environ.get("VERIF_DEBUG"):
+        return
+    seen = set()
+    for kind, items in (("VIOL", ck.violations), ("DISAGREE", ck.disagreements)):
+        for v in items:
+            k = v["what"][:60]
+            if k in seen:
+                continue
+            seen.add(k)
+            print(kind, v.get("signature", ""), v["what"][:400])
+            if len(seen) > int(os.environ.get("VERIF_DEBUG")):
+                return
+    for n in ck.notes[:10]:
+        print("NOTE", n[:300])
+    print("BROKEN", ck.broken_obligations[:5])
+
+
 def main():
     ck = new_check()
     ck.rule = ("templates from a token grammar (directory depth 0-4; year/year2/month/day/doy/hour levels, literal, user-placeholder "
@@ -511,6 +544,7 @@ def main():
             explore(ck, 1500, scratch, use_model=False)
     finally:
         shutil.rmtree(scratch, ignore_errors=True)
+    debug_dump(ck)
     ck.finish()
 
 
